@@ -10,7 +10,7 @@ open Manticore
 open Manticore.Gen
 
 open PKCS7 in
-/-- `pkcs7.Pad`: the smallest block size -/
+-- `pkcs7.Pad`: the smallest block size
 theorem consts_match_model_pkcs7_pad (buffer : Bytes) (blockSize : UInt8) :
     PKCS7.pad buffer blockSize =
     (
@@ -19,7 +19,7 @@ theorem consts_match_model_pkcs7_pad (buffer : Bytes) (blockSize : UInt8) :
         let padLen := blockSize.toNat - buffer.length % blockSize.toNat
         .ok (buffer ++ List.replicate padLen (UInt8.ofNat padLen))) := by exact rfl
 
-/-- one turn of the constant-time loop of `Unpad`: which byte is compared (`buffer[len(buffer)-1-i]`) -/
+-- one turn of the constant-time loop of `Unpad`: which byte is compared (`buffer[len(buffer)-1-i]`)
 theorem consts_match_model_pkcs7_unpadLoop (buffer : Bytes) (padLen : UInt8) (n i : Nat) (good : Bool) :
     PKCS7.unpadLoop buffer padLen (n + 1) i good =
       if buffer.length < ConstsC12.unpad_b_back + i then .panic
@@ -33,7 +33,7 @@ theorem consts_match_model_pkcs7_unpadLoop (buffer : Bytes) (padLen : UInt8) (n 
         | .panic => .panic := by exact rfl
 
 open PKCS7 in
-/-- `pkcs7.Unpad`: the empty-buffer test, the last byte, the 255 cap of the loop, the lower bound 1 of the padding length -/
+-- `pkcs7.Unpad`: the empty-buffer test, the last byte, the 255 cap of the loop, the lower bound 1 of the padding length
 theorem consts_match_model_pkcs7_unpad (buffer : Bytes) :
     PKCS7.unpad buffer =
     (
@@ -53,8 +53,8 @@ theorem consts_match_model_pkcs7_unpad (buffer : Bytes) :
         | .err => .err
         | .panic => .panic) := by exact rfl
 
-/-- the 0/1 integers of crypto/subtle in `Unpad` (`good := 1`, `Select(outOfRange, 1, equal)`, `good != 1`) and the
-    operator nesting of its expressions -/
+-- the 0/1 integers of crypto/subtle in `Unpad` (`good := 1`, `Select(outOfRange, 1, equal)`, `good != 1`) and the
+-- operator nesting of its expressions
 theorem consts_match_model_pkcs7_shapes :
     [ConstsC12.unpad_goodInit, ConstsC12.unpad_select_whenOut, ConstsC12.unpad_goodWant] = [1, 1, 1]
       ∧ [ConstsC12.pad_len_shape, ConstsC12.pad_append_shape, ConstsC12.unpad_b_shape, ConstsC12.unpad_minPad_shape,
@@ -64,13 +64,13 @@ theorem consts_match_model_pkcs7_shapes :
            "(subtle.ConstantTimeLessOrEq (int padLen) (len buffer))", "(slice buffer _ (- (len buffer) (int padLen)))"] :=
   ⟨by decide, rfl⟩
 
-/-- `cmac.shift1`, one byte: the carry bit and the shift -/
+-- `cmac.shift1`, one byte: the carry bit and the shift
 theorem consts_match_model_cmac_shift1 (x : UInt8) (xs : Bytes) :
     CMAC.shift1 (x :: xs) =
       (((x <<< UInt8.ofNat ConstsC12.shift1_by) ||| (CMAC.shift1 xs).2) :: (CMAC.shift1 xs).1, x >>> UInt8.ofNat ConstsC12.shift1_carry) := by
   exact rfl
 
-/-- `k[n-1] ^= r` -/
+-- `k[n-1] ^= r`
 theorem consts_match_model_cmac_xorLast {n : Nat} (v : CMAC.Block n) (r : UInt8) :
     CMAC.xorLast v r =
       if h : 0 < n then
@@ -81,7 +81,7 @@ theorem consts_match_model_cmac_xorLast {n : Nat} (v : CMAC.Block n) (r : UInt8)
   exact rfl
 
 open CMAC in
-/-- `cmac.New`: the two accepted block sizes and their R constants -/
+-- `cmac.New`: the two accepted block sizes and their R constants
 theorem consts_match_model_cmac_new (n : Nat) (E : CMAC.Block n → CMAC.Block n) :
     CMAC.new n E =
     (
@@ -95,8 +95,8 @@ theorem consts_match_model_cmac_new (n : Nat) (E : CMAC.Block n → CMAC.Block n
         .ok ⟨k1, k2, zero, zero, 0⟩
       else .panic) := by exact rfl
 
-/-- the specification's R_b (SP 800-38B §5.3) equals the package's constants; `BlockSize()` is the 128-bit size; both
-    subkeys are adjusted in their last byte -/
+-- the specification's R_b (SP 800-38B §5.3) equals the package's constants; `BlockSize()` is the 128-bit size; both
+-- subkeys are adjusted in their last byte
 theorem consts_match_model_cmac_Rb (n : Nat) :
     CMAC.Spec.Rb n = (if n = ConstsC12.block64 then ConstsC12.r64 else ConstsC12.r128)
       ∧ ConstsC12.blockSize = ConstsC12.block128 ∧ ConstsC12.new_k2Last_back = ConstsC12.new_k1Last_back
@@ -104,7 +104,7 @@ theorem consts_match_model_cmac_Rb (n : Nat) :
       ∧ [ConstsC12.new_k1_shape, ConstsC12.new_k2_shape, ConstsC12.shift1_shape]
         = ["(!= (shift1 d.k1 d.k1) 0)", "(!= (shift1 d.k1 d.k2) 0)", "(| (<< (index src i) 1) b)"] := ⟨rfl, rfl, rfl, rfl, rfl⟩
 
-/-- `NewRC4WithKey`: the accepted key lengths -/
+-- `NewRC4WithKey`: the accepted key lengths
 theorem consts_match_model_rc4_newWithKey (key : Bytes) :
     RC4.newWithKey key =
       if h : key.length < ConstsC12.rc4_key_min ∨ key.length > ConstsC12.rc4_key_max then .err
@@ -112,17 +112,17 @@ theorem consts_match_model_rc4_newWithKey (key : Bytes) :
         have : ConstsC12.rc4_key_min = 1 := rfl
         omega), 0, 0⟩ := by exact rfl
 
-/-- the table size of the two loops of `NewRC4WithKey` is the model's S-box size; the key-scheduling update -/
+-- the table size of the two loops of `NewRC4WithKey` is the model's S-box size; the key-scheduling update
 theorem consts_match_model_rc4_table :
     ConstsC12.rc4_init = 256 ∧ ConstsC12.rc4_ksa = 256 ∧ (RC4.identity).size = ConstsC12.rc4_init
       ∧ ConstsC12.rc4_key_shape = "(|| (< k 1) (> k 256))"
       ∧ ConstsC12.rc4_j_shape = "(+ (index c.s i) (index key (% i k)))" := ⟨rfl, rfl, rfl, rfl, rfl⟩
 
-/-- `GPPP_AES_KEY` is the key published in MS-GPPREF 2.2.1.1.4 -/
+-- `GPPP_AES_KEY` is the key published in MS-GPPREF 2.2.1.1.4
 theorem consts_match_model_gpp_key : ConstsC12.gpp_key = GPP.Spec.msKey := by decide
 
 open GPP Prim in
-/-- the base64 re-padding of `GPPPDecryptBase64` -/
+-- the base64 re-padding of `GPPPDecryptBase64`
 theorem consts_match_model_gpp_repad (s : Bytes) :
     GPP.repad s =
     (
@@ -131,8 +131,8 @@ theorem consts_match_model_gpp_repad (s : Bytes) :
       else if pad = ConstsC12.gpp_pad2 ∨ pad = ConstsC12.gpp_pad3 then s ++ List.replicate (ConstsC12.gpp_repeat_from - pad) 61
       else s) := by exact rfl
 
-/-- `GPPPDecryptBytes` / `GPPPEncrypt`: block size and zero IV come from `aes.BlockSize` (16, the model's block size), the key
-    is `GPPP_AES_KEY`, the padding character is `=`, the UTF-16 length check is `% 2 != 0` -/
+-- `GPPPDecryptBytes` / `GPPPEncrypt`: block size and zero IV come from `aes.BlockSize` (16, the model's block size), the key
+-- is `GPPP_AES_KEY`, the padding character is `=`, the UTF-16 length check is `% 2 != 0`
 theorem consts_match_model_gpp_shapes :
     [ConstsC12.gpp_dec_iv_shape, ConstsC12.gpp_dec_multiple_shape, ConstsC12.gpp_dec_key_shape, ConstsC12.gpp_enc_iv_shape,
      ConstsC12.gpp_enc_pad_shape, ConstsC12.gpp_enc_key_shape]
